@@ -145,6 +145,7 @@ func stdProfile(t *tape.Tape) gen.Profile {
 	p.LitW = []int{0, 2, 4, 8}[t.Intn(4)]
 	p.TopDefer = t.Chance(1, 2)
 	p.Natural = t.Chance(1, 3)
+	p.MultiKw = t.Chance(1, 2)
 	return p
 }
 
